@@ -6,7 +6,7 @@ use crate::lang::*;
 use crate::pgen as gen_;
 use crate::textgen;
 use koto_format::FormatOptions;
-use koto_lexer::{Lexer, Token};
+use koto_lexer::Token;
 use serde_json::{Value, json};
 
 pub static PROP: Prop = Prop {
@@ -37,16 +37,16 @@ pub fn option_grid() -> Vec<FormatOptions> {
 }
 
 fn comments_of(src: &str) -> Vec<String> {
-    Lexer::new(src).filter(|t| matches!(t.token, Token::CommentSingle | Token::CommentMulti)).map(|t| src[t.source_bytes.clone()].split_whitespace().collect::<Vec<_>>().join(" ")).collect()
+    crate::textgen::lex_all(src).into_iter().filter(|t| matches!(t.token, Token::CommentSingle | Token::CommentMulti)).map(|t| src[t.source_bytes.clone()].split_whitespace().collect::<Vec<_>>().join(" ")).collect()
 }
 
 fn literal_tokens(src: &str) -> Vec<String> {
-    Lexer::new(src).filter(|t| matches!(t.token, Token::Number | Token::StringLiteral)).map(|t| src[t.source_bytes.clone()].to_string()).collect()
+    crate::textgen::lex_all(src).into_iter().filter(|t| matches!(t.token, Token::Number | Token::StringLiteral)).map(|t| src[t.source_bytes.clone()].to_string()).collect()
 }
 
 /// token-level predicates of the known shapes
 pub fn known_shape(src: &str) -> Option<&'static str> {
-    let toks: Vec<_> = Lexer::new(src).filter(|t| !matches!(t.token, Token::Whitespace)).collect();
+    let toks: Vec<_> = crate::textgen::lex_all(src).into_iter().filter(|t| !matches!(t.token, Token::Whitespace)).collect();
     for w in toks.windows(2) {
         if w[0].token == Token::Import && w[1].token == Token::Multiply {
             return Some("wildcard-import");
@@ -77,7 +77,7 @@ pub fn known_shape(src: &str) -> Option<&'static str> {
     }
     // a line whose first token is a binary minus: the parser reads it as a continuation of the
     // previous line's expression
-    let all: Vec<_> = Lexer::new(src).collect();
+    let all: Vec<_> = crate::textgen::lex_all(src);
     for (i, t) in all.iter().enumerate() {
         if t.token == Token::Subtract {
             let mut j = i;
@@ -106,7 +106,7 @@ pub fn breaks_inside_expression(src: &str) -> bool {
     let mut depth = 0i32;
     let mut prev: Option<Token> = None;
     let mut strings = 0i32;
-    for t in Lexer::new(src) {
+    for t in crate::textgen::lex_all(src) {
         match t.token {
             Token::Whitespace | Token::CommentSingle | Token::CommentMulti => continue,
             Token::RoundOpen | Token::SquareOpen => depth += 1,
@@ -297,6 +297,68 @@ fn opts_from(v: &Value) -> FormatOptions {
     }
 }
 
+/// Inserts `#[fmt: skip]` before some simple top-level one-line statements, stretches their spacing and
+/// attaches a trailing comment; returns the text and the statement lines that must survive verbatim
+fn with_skip_directives(src: &str, h: u64) -> Option<(String, Vec<String>)> {
+    let lines: Vec<&str> = src.lines().collect();
+    let mut out = String::new();
+    let mut kept = vec![];
+    let mut x = h | 1;
+    let mut next = || {
+        x = x.wrapping_mul(6364136223846793005).wrapping_add(1442695040888963407);
+        (x >> 33) as usize
+    };
+    for (i, l) in lines.iter().enumerate() {
+        let simple = !l.is_empty()
+            && !l.starts_with(' ')
+            && !l.starts_with('#')
+            && l.contains(" = ")
+            && !l.contains('\'')
+            && !l.contains('"')
+            && !l.contains('#')
+            && !l.contains('|')
+            && !l.contains(';')
+            && !l.trim_end().ends_with(['=', ',', '(', '[', '{', '+', '-', '*', '/', '\\'])
+            && lines.get(i + 1).map(|n| !n.starts_with(' ') && !n.trim_start().starts_with('.')).unwrap_or(true)
+            && l.chars().filter(|c| matches!(c, '(' | '[' | '{')).count() == l.chars().filter(|c| matches!(c, ')' | ']' | '}')).count();
+        if simple && next() % 3 == 0 {
+            let stretched = l.replacen(" = ", "   =   ", 1).replace(" + ", "  +  ");
+            let comment = match next() % 4 {
+                0 => "# note".to_string(),
+                1 => " # note".to_string(),
+                2 => "  # note".to_string(),
+                _ => String::new(),
+            };
+            out.push_str("#[fmt: skip]\n");
+            out.push_str(&stretched);
+            out.push_str(&comment);
+            out.push('\n');
+            kept.push(stretched.trim_end().to_string());
+        } else {
+            out.push_str(l);
+            out.push('\n');
+        }
+    }
+    if kept.is_empty() { None } else { Some((out, kept)) }
+}
+
+fn check_skip(src: &str, opts: FormatOptions, kept: &[String]) -> Eval {
+    let mut ev = check_format_x(src, opts, false, true).class("fmt-skip");
+    ev.nontrivial = true;
+    if ev.fail.is_some() {
+        return ev;
+    }
+    if let Ok(Ok(out)) = guarded(|| koto_format::format(src, opts)) {
+        for k in kept {
+            if !out.lines().any(|l| l.trim_start().starts_with(k.as_str())) {
+                ev.fail = Some(Fail::new(format!("c11:skipped-node-changed:input-{:08x}", fnv(src.as_bytes()) as u32), format!("the statement under #[fmt: skip] did not survive verbatim: {k:?}\n--- input:\n{src}\n--- output:\n{out}")));
+                return ev;
+            }
+        }
+    }
+    ev
+}
+
 fn run_shard(ctx: &mut Ctx) {
     use proptest::strategy::{Strategy, ValueTree};
     ctx.set_case_limit_ms(5_000);
@@ -317,6 +379,28 @@ fn run_shard(ctx: &mut Ctx) {
             }
             let case = json!({"kind": "format", "src": text, "options": opts_json(&o), "runnable": runnable});
             ctx.run_case(&case, || check_format(text, o, *runnable).class(class));
+        }
+    }
+    // `#[fmt: skip]` directives: simple one-line statements of the corpus get the directive, their
+    // inner spacing is stretched and a trailing comment is attached with 0, 1 or 2 spaces; besides the
+    // general clauses the skipped line must survive verbatim
+    for (ci, c) in corpus.iter().enumerate() {
+        if c.text.len() > 3000 || c.text.contains("#[") {
+            continue;
+        }
+        for variant in 0..3u64 {
+            idx += 1;
+            if !ctx.mine(idx) || ctx.too_many_failures() {
+                continue;
+            }
+            let h = fnv(format!("{}:skip:{}:{}", ctx.seed, ci, variant).as_bytes());
+            let Some((text, kept)) = with_skip_directives(&c.text, h) else { continue };
+            if koto_parser::Parser::parse(&text).is_err() {
+                continue;
+            }
+            let o = grid[(h % grid.len() as u64) as usize];
+            let case = json!({"kind": "format-skip", "src": text, "options": opts_json(&o), "kept": kept});
+            ctx.run_case(&case, || check_skip(&text, o, &kept));
         }
     }
     // mutants that still parse
@@ -373,6 +457,15 @@ fn run_shard(ctx: &mut Ctx) {
     }
 }
 
+fn replay_skip(case: &Value) -> Option<Fail> {
+    let kept: Vec<String> = case["kept"].as_array()?.iter().filter_map(|x| x.as_str().map(|s| s.to_string())).collect();
+    let o = opts_from(&case["options"]);
+    check_skip(case["src"].as_str()?, o, &kept).fail
+}
+
 fn replay(case: &Value) -> Option<Fail> {
+    if case["kind"] == "format-skip" {
+        return replay_skip(case);
+    }
     check_format_x(case["src"].as_str()?, opts_from(&case["options"]), case["runnable"].as_bool().unwrap_or(false), case["strict"].as_bool().unwrap_or(true)).fail
 }
